@@ -11,13 +11,23 @@
    any estimator, because alpha_mart truncates eta_j to [mu_j,u]); betting with the fixed bet (lambda <= 1/u) and
    aGRAPA; the generalised SPRT; Kaplan-Kolmogorov (any nonnegative population).  `C01_ville` is the inequality used and
    `C01_count_is_probability` shows that the count over orderings is the sequential-draw probability.
-   For N = infinity (independent draws) the theorems are PARTIAL (`..._iid_partial`): every law with FINITE SUPPORT and
-   rational masses on [0,u] with mean <= t, every horizon n: the total mass of the length-n sequences on which some
-   prefix is rejected is <= alpha — ALPHA, betting, SPRT (both random_order settings), Kaplan-Markov, Kaplan-Wald.
-   Missing for the full IID clause: arbitrary (continuous) laws; each one-step factor is affine in the observation so
-   only the mean of the law enters, but the limit argument is not formalised (no measure theory in this development). *)
+   For N = infinity (independent draws) the law of an observation enters only through its one-step EXPECTATION, a
+   positive, normalised, linear functional E on real-valued functions of a rational observation in [0,u] with
+   E[x] <= t (`Prob_real.expectation`).  Every probability distribution of float-valued data is such a functional
+   (floats are rationals; E f = sum_x mu{x} f x) — no finite support, no rational masses are assumed, the values of E
+   are real numbers.  Probabilities of events of the first n draws are iterated expectations (`probc`).  For every such
+   E, every horizon n and alpha in (0,1): P(some prefix of the first n draws is rejected) <= alpha — `C01_alpha_iid`,
+   `C01_betting_iid`, `C01_sprt_iid` (both random_order settings), `C01_kaplan_markov_iid`, `C01_kaplan_wald_iid`.
+   `C01_finite_law_is_expectation` / `C01_finite_law_probability` show that a finite-support law with rational masses is
+   one instance and that `probc` is then the weighted sum over sequences, so the earlier finite-support statements
+   (`..._iid_finite_support`, kept below) are special cases.  What remains outside the formal statement: laws that put
+   mass on irrational values (the code cannot represent them) and the passage n -> infinity (monotone limit of the
+   bounds proved here for every n).  These five theorems (and only these) use Coq's real numbers and therefore the
+   standard library's axioms listed under them by Print Assumptions (ClassicalDedekindReals.sig_forall_dec,
+   FunctionalExtensionality.functional_extensionality_dep). *)
 From SV Require Import NNM NNM_ranges NNM_wf Prob Prob_iid NNM_risk NNM_risk_inst NNM_risk_iid NNM_risk_iid_inst
-     NNM_risk_iid_kaplan NNM_risk_kk.
+     NNM_risk_iid_kaplan NNM_risk_kk Prob_real NNM_risk_real NNM_risk_real_inst.
+From Coq Require Import Qreals Rdefinitions.
 Open Scope Q_scope.
 
 Theorem C01_alpha_wor : forall sqrtq e t u pop alpha,
@@ -52,36 +62,94 @@ Theorem C01_kaplan_kolmogorov_wor : forall g ro t pop alpha,
 Proof. exact kaplan_kolmogorov_risk_limit. Qed.
 Print Assumptions C01_kaplan_kolmogorov_wor.
 
-(* ---- N = infinity, finite-support laws (partial: see the header) ---- *)
-Theorem C01_alpha_iid_partial : forall sqrtq e t u law alpha n,
+(* ---- N = infinity, arbitrary laws given by their expectation (see the header) ---- *)
+Theorem C01_alpha_iid : forall sqrtq e t u (E : (Q -> R) -> R) alpha n,
+  0 < u -> 0 < t < u -> expectation (inrange u) E -> (E Q2R <= Q2R t)%R -> 0 < alpha -> alpha < 1 ->
+  (probc E n (rejectsb (alpha_mart sqrtq e None t u) alpha) <= Q2R alpha)%R.
+Proof. intros sqrtq e t u E. exact (alpha_real_risk_limit sqrtq E e t u). Qed.
+Print Assumptions C01_alpha_iid.
+
+Theorem C01_betting_iid : forall sqrtq, (forall x, 0 <= sqrtq x) -> forall b t u (E : (Q -> R) -> R) alpha n,
+  0 < u -> 0 < t < u -> bet_ok b u -> expectation (inrange u) E -> (E Q2R <= Q2R t)%R -> 0 < alpha -> alpha < 1 ->
+  (probc E n (rejectsb (betting_mart sqrtq b None t u) alpha) <= Q2R alpha)%R.
+Proof. intros sqrtq Hs b t u E. exact (betting_real_risk_limit sqrtq Hs E b t u). Qed.
+Print Assumptions C01_betting_iid.
+
+Theorem C01_sprt_iid : forall sqrtq eta ro t u (E : (Q -> R) -> R) alpha n,
+  0 < u -> 0 < t < u -> expectation (inrange u) E -> (E Q2R <= Q2R t)%R -> 0 < alpha -> alpha < 1 ->
+  (probc E n (rejectsb (wald_sprt sqrtq eta ro None t u) alpha) <= Q2R alpha)%R.
+Proof. intros sqrtq eta ro t u E. exact (sprt_real_risk_limit sqrtq E eta ro t u). Qed.
+Print Assumptions C01_sprt_iid.
+
+Theorem C01_kaplan_markov_iid : forall g ro t u (E : (Q -> R) -> R) alpha n,
+  0 < u -> 0 < t < u -> 0 <= g -> expectation (inrange u) E -> (E Q2R <= Q2R t)%R -> 0 < alpha -> alpha < 1 ->
+  (probc E n (rejectsb (kaplan_markov g ro t) alpha) <= Q2R alpha)%R.
+Proof. intros g ro t u E. exact (kaplan_markov_real_risk_limit E g ro t u). Qed.
+Print Assumptions C01_kaplan_markov_iid.
+
+Theorem C01_kaplan_wald_iid : forall g ro t u (E : (Q -> R) -> R) alpha n,
+  0 < u -> 0 < t < u -> 0 <= g <= 1 -> expectation (inrange u) E -> (E Q2R <= Q2R t)%R -> 0 < alpha -> alpha < 1 ->
+  (probc E n (rejectsb (kaplan_wald g ro t) alpha) <= Q2R alpha)%R.
+Proof. intros g ro t u E. exact (kaplan_wald_real_risk_limit E g ro t u). Qed.
+Print Assumptions C01_kaplan_wald_iid.
+
+(* Ville's inequality in this generality, and the crossing probability as the probability of the crossing event *)
+Theorem C01_ville_real : forall (supp : Q -> Prop) (E : (Q -> R) -> R), expectation supp E ->
+  forall (T : list Q -> Q) (thr : Q) (Inv : list Q -> Prop),
+  (forall p x, Inv p -> supp x -> Inv (p ++ [x])) ->
+  (forall p, Inv p -> 0 <= T p) ->
+  (forall p, Inv p -> (E (fun x => Q2R (T (p ++ [x]))) <= Q2R (T p))%R) ->
+  forall n p, Inv p -> (pcrossR E T thr n p * Q2R thr <= Q2R (T p))%R.
+Proof. exact villeR. Qed.
+Print Assumptions C01_ville_real.
+
+Theorem C01_crossing_probability : forall (supp : Q -> Prop) (E : (Q -> R) -> R), expectation supp E ->
+  forall (T : list Q -> Q) (thr : Q) n p, pcrossR E T thr n p = probc E n (fun r => crosses T thr p r).
+Proof. exact pcrossR_probc. Qed.
+Print Assumptions C01_crossing_probability.
+
+(* finite-support laws with rational masses are one instance, and there `probc` is the weighted sum over sequences *)
+Theorem C01_finite_law_is_expectation : forall (supp : Q -> Prop) (law : list (Q * Q)),
+  (forall vw, In vw law -> 0 <= snd vw /\ supp (fst vw)) -> lsum (map snd law) == 1 ->
+  expectation supp (EL law) /\ EL law Q2R = Q2R (lsum (map (fun vw => snd vw * fst vw) law)).
+Proof. intros supp law H1 H2. split; [exact (EL_expectation supp law H1 H2) | exact (EL_mean law)]. Qed.
+Print Assumptions C01_finite_law_is_expectation.
+
+Theorem C01_finite_law_probability : forall (law : list (Q * Q)) n (ev : list Q -> bool),
+  probc (EL law) n ev = Q2R (lsum (map (fun s => weight s * ind (ev (values s))) (seqs law n))).
+Proof. exact probc_EL_sum. Qed.
+Print Assumptions C01_finite_law_probability.
+
+(* ---- N = infinity, finite-support laws with rational masses, stated over Q (special cases of the above) ---- *)
+Theorem C01_alpha_iid_finite_support : forall sqrtq e t u law alpha n,
   0 < u -> 0 < t < u -> null_law u t law -> 0 < alpha -> alpha < 1 ->
   lsum (map (fun s => weight s * ind (rejectsb (alpha_mart sqrtq e None t u) alpha (values s))) (seqs law n)) <= alpha.
 Proof. exact alpha_iid_risk_limit. Qed.
-Print Assumptions C01_alpha_iid_partial.
+Print Assumptions C01_alpha_iid_finite_support.
 
-Theorem C01_betting_iid_partial : forall sqrtq, (forall x, 0 <= sqrtq x) -> forall b t u law alpha n,
+Theorem C01_betting_iid_finite_support : forall sqrtq, (forall x, 0 <= sqrtq x) -> forall b t u law alpha n,
   0 < u -> 0 < t < u -> bet_ok b u -> null_law u t law -> 0 < alpha -> alpha < 1 ->
   lsum (map (fun s => weight s * ind (rejectsb (betting_mart sqrtq b None t u) alpha (values s))) (seqs law n)) <= alpha.
 Proof. exact betting_iid_risk_limit. Qed.
-Print Assumptions C01_betting_iid_partial.
+Print Assumptions C01_betting_iid_finite_support.
 
-Theorem C01_sprt_iid_partial : forall sqrtq eta ro t u law alpha n,
+Theorem C01_sprt_iid_finite_support : forall sqrtq eta ro t u law alpha n,
   0 < u -> 0 < t < u -> null_law u t law -> 0 < alpha -> alpha < 1 ->
   lsum (map (fun s => weight s * ind (rejectsb (wald_sprt sqrtq eta ro None t u) alpha (values s))) (seqs law n)) <= alpha.
 Proof. exact sprt_iid_risk_limit. Qed.
-Print Assumptions C01_sprt_iid_partial.
+Print Assumptions C01_sprt_iid_finite_support.
 
-Theorem C01_kaplan_markov_iid_partial : forall g ro t u law alpha n,
+Theorem C01_kaplan_markov_iid_finite_support : forall g ro t u law alpha n,
   0 < t -> 0 <= g -> null_law u t law -> 0 < alpha -> alpha < 1 ->
   lsum (map (fun s => weight s * ind (rejectsb (kaplan_markov g ro t) alpha (values s))) (seqs law n)) <= alpha.
 Proof. exact kaplan_markov_iid_risk_limit. Qed.
-Print Assumptions C01_kaplan_markov_iid_partial.
+Print Assumptions C01_kaplan_markov_iid_finite_support.
 
-Theorem C01_kaplan_wald_iid_partial : forall g ro t u law alpha n,
+Theorem C01_kaplan_wald_iid_finite_support : forall g ro t u law alpha n,
   0 < t -> 0 <= g <= 1 -> null_law u t law -> 0 < alpha -> alpha < 1 ->
   lsum (map (fun s => weight s * ind (rejectsb (kaplan_wald g ro t) alpha (values s))) (seqs law n)) <= alpha.
 Proof. exact kaplan_wald_iid_risk_limit. Qed.
-Print Assumptions C01_kaplan_wald_iid_partial.
+Print Assumptions C01_kaplan_wald_iid_finite_support.
 
 (* the weighted sum over sequences is the sequential-draw probability, and Ville's inequality for independent draws *)
 Theorem C01_iid_sum_is_probability : forall (T : list Q -> Q) (thr : Q) (law : list (Q * Q)),
@@ -98,6 +166,17 @@ Theorem C01_ville_iid : forall (T : list Q -> Q) (thr : Q) (law : list (Q * Q)),
   forall n p, Inv p -> pcross_iid T thr law n p * thr <= T p.
 Proof. exact ville_iid. Qed.
 Print Assumptions C01_ville_iid.
+
+(* the hypotheses of the arbitrary-law theorems are satisfiable: the example law below is an expectation with mean 3/8 *)
+Definition ex_law : list (Q * Q) := [(0, 1#2); (1, 1#4); (1#2, 1#4)].
+Example C01_real_nonvacuous :
+  expectation (inrange 1) (EL ex_law) /\ (EL ex_law Q2R <= Q2R (1#2))%R.
+Proof.
+  split.
+  - apply EL_expectation; [|reflexivity].
+    intros vw [E|[E|[E|[]]]]; subst; unfold inrange; simpl; repeat split; unfold Qle; simpl; lia.
+  - rewrite EL_mean. apply Qle_Rle. unfold Qle; vm_compute. discriminate.
+Qed.
 
 Example C01_iid_nonvacuous :
   null_law 1 (1#2) [(0, 1#2); (1, 1#4); (1#2, 1#4)]
